@@ -211,7 +211,7 @@ BAD_ARGS = [['--frobnicate'], ['-n'], ['-n', '0'], ['-n', '-3'], ['-n', 'abc'], 
 OPT_NAMES = ['--format', '-f', '--type', '--gpo', '--gpe', '--tgpe', '-n', '--nthreads', '--set', '-i', '--in', '--input', '--infile', '-o', '--out', '--output', '--outfile',
              '-q', '--quiet', '--showw', '-h', '--help', '-v', '-V', '--version', '--changename', '--reformat', '-x', '--', '-', '---', '--gp', '--t', '-nthreads', '-format']
 OPT_VALUES = ['', ' ', '0', '1', '-1', '4', '64', '100000', '2147483648', '-2147483649', '1e9', '1e10', '0.0', '-0.0', '5.5', 'nan', 'inf', '-inf', '0x10', '1,5', 'abc', 'fasta', 'fa', 'msf', 'clu',
-              'clustal', 'FASTA', 'mSf', 'dna', 'rna', 'protein', 'divergent', 'internal', 'DNA', 'prot', 'in.dat', 'missing.fa', 'res', 'out.afa', 'res/out.afa', '/', '.', '..', 'a' * 300, '%s%n%d', '\xff\xfe', '-q', '--gpo']
+              'clustal', 'FASTA', 'mSf', 'dna', 'rna', 'protein', 'divergent', 'internal', 'DNA', 'prot', 'in.dat', 'missing.fa', 'res', 'out.afa', 'res/out.afa', '/', '.', '..', 'a' * 300, 'b' * 520, 'c' * 700, 'd' * 3000, './' * 350 + 'in.dat', '%s%n%d', '\xff\xfe', '-q', '--gpo']
 
 
 def random_args(rng):
